@@ -572,6 +572,8 @@ void
         new_len = *prev_len;
     } else {
 	new_len = alpha * *prev_len;
+	/* 1.5 * 1 is truncated to 1: a one-entry array must still grow */
+	if ( new_len <= *prev_len ) new_len = *prev_len + 1;
     }
     
     if ( type == LSUB || type == USUB ) lword = sizeof(int_t);
